@@ -156,10 +156,14 @@ impl fmt::Display for Display<'_> {
         let mut takes_exp = true;
         let mut n = self.spec.limit;
 
-        for d in emit(&mut rem, &den) {
-            if n == 0 {
+        let mut it = emit(&mut rem, &den);
+
+        // NB: test the budget before pulling a digit, a pulled digit which is
+        // not printed would be lost without a trace.
+        while n > 0 {
+            let Some(d) = it.next() else {
                 break;
-            }
+            };
 
             if d.is_zero() && takes_exp {
                 exp -= 1;
@@ -196,6 +200,8 @@ impl fmt::Display for Display<'_> {
                 d.fmt(f)?;
             }
         }
+
+        drop(it);
 
         if !rem.is_zero() && self.spec.show_continuation {
             f.write_char('…')?;
